@@ -37,7 +37,7 @@ def run(ctx):
                 "--start / --end alone or together vs the unfiltered run, stdin vs file (binary)")
     samcommon.run(ctx, "C15", 100 if ctx.quick else 1500)
     n0 = len(ctx.failures)
-    obs = varcommon.collect(ctx)
+    obs = varcommon.collect(ctx, extra_vecs=varcommon.refdup_vectors(ctx))
     rows, fails, _ = kernel.validate_obs(ctx, "ObsVariants", "ObsVariants.cfg", obs, tag="variants", timeout=6000)
     ctx.failures = ctx.failures[:n0] + [f for f in ctx.failures[n0:] if f["clause"].startswith("C15-") or f["clause"] in ("panic", "timeout")]
     kernel.account(ctx, rows, varcommon.nontrivial)
